@@ -525,7 +525,7 @@ func emitRx(g *pk.Gen, need, nenv, ps0 int, pkts []Pkt, tag string) {
 func GenRx(g *pk.Gen) {
 	nresp := 40
 	if g.Thorough {
-		nresp = 1500
+		nresp = 800
 	}
 	for i := 0; i < nresp; i++ {
 		items := Response(g)
